@@ -174,6 +174,21 @@ Definition eval_inc (c : ctx) (i : incl) : result cls bool :=
 Definition render_edge (c : ctx) (e : edge) : result cls iedge :=
   match render c (e_from e) with Ok f => Ok (mkIE f (e_cond e)) | Err x => Err x end.
 
+(* FlowParser._parse_next_row (the tree after the repair of padded-edge-columns): a sheet is
+   rectangular, a row with fewer edges than the widest carries blank edge cells; trivial edges
+   (blank from, blank condition) other than the first are dropped when the row is read, for
+   every row type.  Whether the tree at hand does so is the regenerated probe
+   [padding_edges_dropped_at_read]; before, only rows that create a node skipped them (step_row). *)
+Definition is_trivial_iedge (e : iedge) : bool :=
+  match ie_from e with [] => cond_empty (ie_cond e) | _ => false end.
+Definition drop_padding_edges (es : list iedge) : list iedge :=
+  if padding_edges_dropped_at_read then
+    match es with
+    | [] => []
+    | e :: more => e :: filter (fun x => negb (is_trivial_iedge x)) more
+    end
+  else es.
+
 (* SheetParser.parse_next_row with templating: the inclusion column is evaluated first; the
    other cells of an excluded row are not evaluated (None = excluded) *)
 Definition instantiate (c : ctx) (r : frow) : result cls (option irow) :=
@@ -183,7 +198,7 @@ Definition instantiate (c : ctx) (r : frow) : result cls (option irow) :=
   do es <- mapM (render_edge c) (r_edges r);
   do m <- render c (r_main r);
   do l <- mapM (render c) (r_list r);
-  Ok (Some (mkI (r_type r) id es true m l (r_vars r) (r_save r) (r_objid r) (r_noresp r) (r_url r)
+  Ok (Some (mkI (r_type r) id (drop_padding_edges es) true m l (r_vars r) (r_save r) (r_objid r) (r_noresp r) (r_url r)
                 (r_headers r) (r_dsheet r) (r_drow r) (r_targs r))).
 
 (* ---------------------------------------------------------------- routers and groups *)
